@@ -488,6 +488,14 @@ func (in *Interp) installStubs() {
 			return UF("math_"+name, 64, x) // transcendental functions are uninterpreted on symbolic arguments
 		}
 	}
+	// randomness: a fixed value (the entry node's random vector is irrelevant to every property; where
+	// randomness matters a harness injects its own nondet)
+	in.stubs["math/rand/v2.Float32"] = func(in *Interp, fn *ssa.Function, args []Value) Value {
+		return BVu(32, uint64(math.Float32bits(0.25)))
+	}
+	in.stubs["math/rand/v2.Float64"] = func(in *Interp, fn *ssa.Function, args []Value) Value {
+		return BVu(64, math.Float64bits(0.25))
+	}
 	in.stubs["runtime.NumCPU"] = func(in *Interp, fn *ssa.Function, args []Value) Value { return BVi(64, 2) }
 	in.stubs["runtime.Gosched"] = func(in *Interp, fn *ssa.Function, args []Value) Value { in.schedule(true); return nil }
 	in.stubs["time.Now"] = func(in *Interp, fn *ssa.Function, args []Value) Value { return zero(fn.Signature.Results().At(0).Type()) }
